@@ -108,6 +108,19 @@ def _call(g, req, rel):
 def _run(req, res, rel):
     dp = req.get("dp", DP)
     g, rw = _builder(res, req["ccw"], req["start"], dp)
+    if req.get("warm"):
+        # the builder has a history: the same request was traced before with another resolution and direction, and the tool
+        # was brought back (anything the tracer remembered from that run must not leak into this one)
+        try:
+            g.set_resolution(res * 2.5)
+            g.set_direction("clockwise" if req["ccw"] else "counter")
+            _call(g, req, False)
+        except Exception:
+            pass
+        g.set_resolution(res)
+        g.set_direction("counter" if req["ccw"] else "clockwise")
+        g.move(x=req["start"][0], y=req["start"][1], z=req["start"][2])
+        rw.take()
     if rel:
         g.set_distance_mode("relative")
         rw.take()
@@ -164,7 +177,7 @@ def gen(rng, shape=None):
     res = rng.choice([0.5, 1.0, 2.0])
     ccw = rng.random() < 0.5
     s = pt(rng) if rng.random() < 0.85 else [0.0, 0.0, 0.0]
-    req = {"shape": shape, "res": res, "ccw": ccw, "start": s, "turns": 1}
+    req = {"shape": shape, "res": res, "ccw": ccw, "start": s, "turns": 1, "warm": rng.random() < 0.3}
     sgn = 1.0 if ccw else -1.0
     if shape in ("arc", "circle"):
         r = rng.uniform(4 * res, 45)
